@@ -16,6 +16,11 @@ import EncodingRs.Thm.C07LifeRepl
   BOM modes, the documented caller loop over `decode_to_utf{8,16}` makes at most
   `bytes + chunks + 6` calls.  (A panic of the model — `some none` — ends no loop: the relation only
   contains calls that returned.)
+* `DLifeReplLoopPre` (every prefix of a run), `life_repl_prefix_calls_le_events`,
+  **`life_repl_caller_loop_prefix_bound`**, **`life_repl_caller_loop_terminates`**: no prefix of a run has
+  more than `bytes + chunks + 6` calls.  That each single with-replacement call returns (the fuelled
+  `Decoder.replCall` is not `none`) is `Thm/C08ReplTerm.lean`.
+* Non-vacuity: a three-call run (Shift_JIS, sniffing, `FE 41 42 43 B1`) and a proper prefix of it.
 -/
 namespace EncodingRs.Thm.C08Loop
 open EncodingRs EncodingRs.Model EncodingRs.Lemmas.Core EncodingRs.Lemmas.FamLaws EncodingRs.Lemmas.Life
